@@ -1,7 +1,7 @@
 (** Program: a whole computation = source + operations + terminal, executed by the runner
     machine under a schedule, with the settings arithmetic of [Settings.v] deciding spawns and
     chunk sizes.  This is the executable model that is extracted and run against the crate. *)
-From OrxPar Require Import Base Settings SettingsP Spec Pipeline PipelineP Machine MachineP Kernels KernelsP.
+From OrxPar Require Import Base Settings SettingsP Spec Pipeline PipelineP Machine MachineP Termination Kernels KernelsP.
 Set Implicit Arguments.
 
 (** ** the runner's decisions, as the machine consumes them *)
@@ -130,6 +130,65 @@ Theorem mrun_threads len stop sched : length (ws (mrun len stop sched)) <= m_max
 Proof.
   pose proof (G_sp (mrun_GInv len stop sched)) as H.
   destruct (sph (mrun len stop sched)); lia.
+Qed.
+
+
+(** ** termination (C10): no reachable state is stuck and a fair continuation completes *)
+Let known := match r_input_len r with Some _ => true | None => false end.
+
+Lemma spawner_hyps :
+  (forall n h, m_dospawn r n h = true -> n + 2 <= m_maxt r) /\
+  (forall n h c, m_nextc r n h = Some c -> 0 < c) /\ 1 <= m_maxt r /\ 0 < m_c0 r.
+Proof.
+  repeat split.
+  - intros n h. apply m_dospawn_bound. exact r_wf.
+  - intros n h c. apply m_nextc_pos. exact r_wf.
+  - apply m_maxt_pos. exact r_wf.
+  - apply m_c0_pos. exact r_wf.
+Qed.
+
+Theorem mrun_SInv len stop sched : SInv len (mrun len stop sched).
+Proof. apply (@run_SInv len known stop (m_dospawn r) (m_nextc r) (m_maxt r) (m_maxt_pos r_wf)). apply init_SInv. Qed.
+
+(** after any schedule prefix, [phi] rounds of round robin complete the run *)
+Theorem mrun_completes len stop sched :
+  all_done (mrun len stop (sched ++ round_robin (m_maxt r) (phi len (m_maxt r) (mrun len stop sched)))).
+Proof.
+  destruct spawner_hyps as (H1 & H2 & H3 & H4).
+  unfold mrun, Machine.run. rewrite fold_left_app.
+  apply all_doneb_spec.
+  apply (@rr_completes len known stop (m_dospawn r) (m_nextc r) (m_maxt r) H1 H2 H3); auto.
+  - apply mrun_GInv.
+  - apply mrun_SInv.
+Qed.
+
+(** no schedule contains more than [phi(init)] effective steps *)
+Theorem mrun_effective_bounded len stop sched :
+  effective len known stop (m_dospawn r) (m_nextc r) (init (m_c0 r)) sched
+  <= 5 * m_maxt r + 2 + 4 * len.
+Proof.
+  destruct spawner_hyps as (H1 & H2 & H3 & H4).
+  pose proof (@effective_bounded len known stop (m_dospawn r) (m_nextc r) (m_maxt r) H1 H2 H3
+                (init (m_c0 r)) sched) as B.
+  assert (G0 : GInv len stop (m_maxt r) (init (m_c0 r))) by (apply init_GInv; auto).
+  specialize (B G0 (init_SInv len (m_c0 r))).
+  assert (E : phi len (m_maxt r) (init (m_c0 r)) = 5 * m_maxt r + 2 + 4 * len).
+  { unfold phi, rem. cbn. lia. }
+  lia.
+Qed.
+
+(** once the early-exit signal is out, the rest of the run takes a number of effective steps
+    that depends on the thread bound and the chunk sizes only -- not on the remaining input *)
+Theorem mrun_after_signal len stop sched sched2 :
+  skipped (mrun len stop sched) = true ->
+  effective len known stop (m_dospawn r) (m_nextc r) (mrun len stop sched) sched2
+  <= 5 * m_maxt r + 3 + sum_list (map (fun w => 2 * csize w + 3) (ws (mrun len stop sched))).
+Proof.
+  intros Hsk. destruct spawner_hyps as (H1 & H2 & H3 & H4).
+  pose proof (@effective_bounded len known stop (m_dospawn r) (m_nextc r) (m_maxt r) H1 H2 H3
+                (mrun len stop sched) sched2 (mrun_GInv len stop sched) (mrun_SInv len stop sched)) as B.
+  pose proof (phi_after_signal H3 (mrun_SInv len stop sched) Hsk) as P.
+  lia.
 Qed.
 
 End Run.
